@@ -495,7 +495,15 @@ def write_evidence(pid, tier, seed, prop, results, wall, violations, notes):
 def run_property(pid, tier, only, jobs, keep, seed):
     prop = registry.PROPS[pid]
     t0 = time.time()
-    hs = [h for h in prop["harnesses"] if tier == "thorough" or h.get("tier", "quick") == "quick"]
+    hs = [h for h in prop["harnesses"] if (tier == "thorough" and h.get("tier") != "probe") or h.get("tier", "quick") == "quick"]
+    if os.environ.get("VERIF_PROBE"):
+        # unregistered probe: VERIF_PROBE=<harness module>:<fn> runs one harness that is not part of any claim
+        mod, fn = os.environ["VERIF_PROBE"].split(":")
+        hs = [registry.H(fn, mod, "probe", int(os.environ.get("VERIF_TIMEOUT", 900)), "probe", [], "probe")]
+        prop = dict(prop, harnesses=prop["harnesses"] + hs)
+        if not any(m == mod for _, m in prop["inject"]):
+            prop["inject"] = list(prop["inject"]) + [(os.environ.get("VERIF_PROBE_HOST", "src/lib.rs"), mod)]
+        only = only or fn
     if only:
         global PARTIAL_RUN
         PARTIAL_RUN = True
@@ -503,6 +511,8 @@ def run_property(pid, tier, only, jobs, keep, seed):
     if not hs:
         raise SystemExit("no harness selected")
     random.Random(seed).shuffle(hs)
+    # longest-known first (stable w.r.t. the seeded shuffle): keeps the wall time of a -j run near max(single)
+    hs.sort(key=lambda h: -getattr(registry, "COST", {}).get(h["name"], 0))
     slot = Slot()
     known = load_known()
     notes = []
@@ -518,9 +528,22 @@ def run_property(pid, tier, only, jobs, keep, seed):
             return 2
         logdir = os.path.join(OUT, "logs", "%s-slot%d" % (pid, slot.k) if os.environ.get("VERIF_LOGDIR_PER_SLOT") else pid)
         shutil.rmtree(logdir, ignore_errors=True)
-        j = max(1, min(jobs, len(hs), int(56 // prop.get("mem_gb", 12))))
-        data, lpath, rc, dt = run_kani(slot, prop, hs, j, logdir)
-        results = classify(data, hs, prop)
+        # harnesses that need more memory than the property's default run in their own cargo-kani invocation
+        # (ulimit is per invocation) after the others; the build is shared
+        groups = {}
+        for h in hs:
+            groups.setdefault(h.get("mem") or prop.get("mem_gb", 12), []).append(h)
+        results = {}
+        data = None
+        lpath = None
+        for gi, (mem, ghs) in enumerate(sorted(groups.items())):
+            j = max(1, min(jobs, len(ghs), int(56 // mem)))
+            gdata, glpath, rc, dt = run_kani(slot, prop, ghs, j, logdir if gi == 0 else os.path.join(logdir, "mem%d" % mem), mem_gb=mem)
+            results.update(classify(gdata, ghs, prop))
+            if gdata is None or data is None:
+                data, lpath = gdata, glpath
+            if gdata is None:
+                break
         if data is None:
             txt = open(lpath, errors="replace").read()
             errs = re.findall(r"^error.*$", txt, re.M)[:5]
